@@ -254,7 +254,7 @@ impl Machine for SeekMachine<'_> {
                 }
                 SAct::Apply(n, k) => {
                     let inp = &self.data[..*n];
-                    let before = if *k == Kind::InPlace { inp.to_vec() } else { dirty(*n) };
+                    let before = if k.in_place() { inp.to_vec() } else { dirty(*n) };
                     let mut out = before.clone();
                     let r = s.apply(*k, inp, &mut out);
                     if self.fits(pos, *n) {
